@@ -381,6 +381,7 @@ class ExcV(AVal):
         self.definite = definite
         self.cause = cause
         self.fields = {}
+        self.raise_node = None
 
     def cls_name(self):
         return self.cls.name if hasattr(self.cls, 'qualname') else self.cls.__name__
